@@ -19,11 +19,11 @@ from ..core.framework import Ctx, b2s, s2b
 
 SPEC = {
     "modules": ["HC.Props.C11", "HC.Pure.Sha1"],
-    "extracted": ["Guards", "WsGuards"],
+    "extracted": ["Guards", "WsGuards", "AppExit"],
     "technique": "Lean 4: Handshake(headers) characterised as a function of the LAST occurrence of each header (scan = merge, by induction over arbitrary header lists), is_valid <-> a declarative validSpec over the header list for both carriers, onRequest 400/no-app vs connect-first, accept rendering = explicit header list with the token instantiated by an executable SHA-1/base64 (RFC 6455 sample checked by kernel evaluation), refused accept = no-op, 403, denial response by induction over body chunks, disconnect code per closing order; tied by differential runs of the real WSStream over the exhaustive header-presence lattice and by end-to-end runs on asyncio+trio over HTTP/1.1 and HTTP/2 with an independent wsproto client",
-    "level_text": "Proved in Lean for ALL header lists (any length, duplicates, any case) and both carriers: Handshake(headers, v).is_valid() = True iff validSpec (last occurrence of each header, names case-insensitive; Connection a comma list with an `upgrade` token in any case; Upgrade = websocket in any case; Sec-WebSocket-Version exactly 13; key / Connection / Upgrade demanded for EVERY version string other than '2' / '3', i.e. whatever an HTTP/1 request line states - the tests over self.http_version are extracted from is_valid and accept (WsGuards.versionRefused / http1Handshake / http1Accept; version_refused_iff, http1_handshake_iff, http1_accept_iff, accept_test_is_valid_test); never below 1.1) and every token-list header ASCII; for every version h11 can hand over (d.d: h11_version_not_multiplexed) a handshake lacking key / Connection: upgrade / Upgrade: websocket is refused with 400 and no application (h1_incomplete_refused, h1_incomplete_400_no_app - the clause F102 broke for 1.2, 2.0, 9.9 ...), a complete one is valid iff the version is not below 1.1 (h1_complete_valid_iff) and its accept is a 101 with upgrade / connection (h1_accept_is_101); header names matched case-insensitively because Handshake.__init__ lower-cases them (handshake_names_lowercased over the extracted WsGuards.handshakeName) - is_valid_iff (no side condition) / is_valid_false_iff / non_ascii_is_400, with the one remaining raise-instead-of-400 boundary as a theorem (missing_upgrade_raises, unreachable through H11Protocol); invalid => 400 + closed + nothing put, ever (invalid_400_no_app, never_started_never_put); valid => exactly [websocket.connect] put and nothing written (valid_connect_first); accept => 101/200 with [subprotocol iff given (and then offered)] ++ [extensions] ++ [sec-websocket-accept = base64(sha1(key ++ GUID))] ++ [upgrade, connection on 1.1] ++ validated extra headers (accept_rendered, accept_ok_iff, accept_sent, accept_token_rfc6455), and this for EVERY container the application gives the extra headers in - ASGI says Iterable: the traversals Handshake.accept performs over additional_headers are extracted in order (WsGuards.acceptExtraPasses) and run on a model of an iterable that a one-shot form (generator / iterator / map object) lets be traversed once (HC/Stream/WsIter.lean): accept_extra_any_iterable / accept_any_iterable - the result is the one for the list of its items (check_then_emit, faithful_sound: one checking-and-emitting traversal, or a copy first); refused accept = state and wire untouched (accept_refused_is_noop); close => 403 (close_403); HTTP-response extension => exactly that status/headers/body chunks/end once (http_response_exact); disconnect code 1000 iff CLOSED/HTTPCLOSED else 1006 (disconnect_code), 1000 after the application's close (app_close_1000, simultaneous_close_1000), 1006 when lost (lost_1006).  disconnect_code_client_close: after a client-initiated close the application is told the client's code (1005 if none); non_ascii_is_400: a non-ASCII token-list header makes the handshake invalid instead of raising (F13 and F33 were repaired in the repository).",
+    "level_text": "Proved in Lean for ALL header lists (any length, duplicates, any case) and both carriers: Handshake(headers, v).is_valid() = True iff validSpec (last occurrence of each header, names case-insensitive; Connection a comma list with an `upgrade` token in any case; Upgrade = websocket in any case; Sec-WebSocket-Version exactly 13; key / Connection / Upgrade demanded for EVERY version string other than '2' / '3', i.e. whatever an HTTP/1 request line states - the tests over self.http_version are extracted from is_valid and accept (WsGuards.versionRefused / http1Handshake / http1Accept; version_refused_iff, http1_handshake_iff, http1_accept_iff, accept_test_is_valid_test); never below 1.1) and every token-list header ASCII; for every version h11 can hand over (d.d: h11_version_not_multiplexed) a handshake lacking key / Connection: upgrade / Upgrade: websocket is refused with 400 and no application (h1_incomplete_refused, h1_incomplete_400_no_app - the clause F102 broke for 1.2, 2.0, 9.9 ...), a complete one is valid iff the version is not below 1.1 (h1_complete_valid_iff) and its accept is a 101 with upgrade / connection (h1_accept_is_101); header names matched case-insensitively because Handshake.__init__ lower-cases them (handshake_names_lowercased over the extracted WsGuards.handshakeName) - is_valid_iff (no side condition) / is_valid_false_iff / non_ascii_is_400, with the one remaining raise-instead-of-400 boundary as a theorem (missing_upgrade_raises, unreachable through H11Protocol); invalid => 400 + closed + nothing put, ever (invalid_400_no_app, never_started_never_put); valid => exactly [websocket.connect] put and nothing written (valid_connect_first); accept => 101/200 with [subprotocol iff given (and then offered)] ++ [extensions] ++ [sec-websocket-accept = base64(sha1(key ++ GUID))] ++ [upgrade, connection on 1.1] ++ validated extra headers (accept_rendered, accept_ok_iff, accept_sent, accept_token_rfc6455), and this for EVERY container the application gives the extra headers in - ASGI says Iterable: the traversals Handshake.accept performs over additional_headers are extracted in order (WsGuards.acceptExtraPasses) and run on a model of an iterable that a one-shot form (generator / iterator / map object) lets be traversed once (HC/Stream/WsIter.lean): accept_extra_any_iterable / accept_any_iterable - the result is the one for the list of its items (check_then_emit, faithful_sound: one checking-and-emitting traversal, or a copy first); refused accept = state and wire untouched (accept_refused_is_noop); close => 403 (close_403); HTTP-response extension => exactly that status/headers/body chunks/end once (http_response_exact); disconnect code 1000 iff CLOSED/HTTPCLOSED else 1006 (disconnect_code), 1000 after the application's close (app_close_1000, simultaneous_close_1000) - also when the two closing sequences overlap: the CONNECTED-state websocket.close branch of app_send is read off the source statement by statement (AppExit.wsCloseBranch) and run on the stream model with the reader task handling the client's close frame + the protocol's StreamClosed, or the loss of the connection, while the p-th awaited send of the branch is suspended (HC/Stream/WsOverlap.lean): for every p and all codes the application is told 1000 exactly once after a completed closing handshake, never 1006 (app_close_overlapped_client_close_1000, app_close_overlapped_events), 1000 or 1006 exactly once when the connection is lost during the write (app_close_overlapped_lost), because the state is CLOSED before the first await once the frame exists (app_close_state_before_write; close_branch_is_appSend: without an overlap the statement-wise run is the model's atomic step); 1006 when lost (lost_1006).  disconnect_code_client_close: after a client-initiated close the application is told the client's code (1005 if none); non_ascii_is_400: a non-ASCII token-list header makes the handshake invalid instead of raising (F13 and F33 were repaired in the repository).",
     "level_note": "Trusted: Lean kernel; model HC/Stream/Ws.lean tied by differential runs; wsproto's extension negotiation result is a parameter of the model (taken from the run), its connection-state machine is modelled (connSend / connRecvClose) and sampled; H11Protocol's / H2Protocol's routing (which requests reach a WSStream) is exercised end to end only; HC.Pure.Sha1 is compared on every run with wsproto.utilities.generate_accept_token and with wsproto's own client handshake.",
-    "rule": "direct: exhaustive lattice over {connection, upgrade, key, version} x 6 states x HTTP version {1.0, 1.1, 2}, {connection, upgrade, key} x 4 states x version header {ok, bad, absent} x request-line version {1.2, 1.9, 2.0, 3.0, 9.9, 0.9} on the HTTP/1 carrier, random subprotocol/extension offers, application decision sequences up to length 4 over the websocket send alphabet, the headers of accept / http.response.start given as list / tuple / list of lists / iterator / generator / generator expression / map object (every form x carrier x with / without subprotocol x accepted and refused header sets; every other header-bearing random decision in a non-list form; Handshake.accept against the extracted traversals per form: c11.extra), closing orders {client first (1000, 1001, 3000, no code), application first, simultaneous, abrupt}; e2e: handshake classes (incl. request-line versions 1.2 / 1.9 / 2.0 / 3.0 / 9.9 / 0.9 complete, key-less, bad version header, duplicated Connection / Upgrade; header names per header in lower / Capitalised / UPPER case with h11_pass_raw_headers on and off) x decisions x closing orders x carrier x worker, and the upgrade as the k-th request of its connection below / at keep_alive_max_requests (1, 2, 3) incl. wsproto's own client as oracle, and accept / denial response with headers in every container form x carrier x worker; distinct = distinct (layer, carrier, worker, header-state vector, decision classes, closing order); non-trivial = handshake invalid, or a decision other than a bare accept, or a closing order other than abrupt",
+    "rule": "direct: exhaustive lattice over {connection, upgrade, key, version} x 6 states x HTTP version {1.0, 1.1, 2}, {connection, upgrade, key} x 4 states x version header {ok, bad, absent} x request-line version {1.2, 1.9, 2.0, 3.0, 9.9, 0.9} on the HTTP/1 carrier, random subprotocol/extension offers, application decision sequences up to length 4 over the websocket send alphabet, the headers of accept / http.response.start given as list / tuple / list of lists / iterator / generator / generator expression / map object (every form x carrier x with / without subprotocol x accepted and refused header sets; every other header-bearing random decision in a non-list form; Handshake.accept against the extracted traversals per form: c11.extra), closing orders {client first (1000, 1001, 3000, no code), application first, simultaneous, abrupt, client first and gone, the application's close suspended in its first / second awaited send while the client's close frame + StreamClosed or the loss of the connection are handled (c11.wsx)}; e2e: handshake classes (incl. request-line versions 1.2 / 1.9 / 2.0 / 3.0 / 9.9 / 0.9 complete, key-less, bad version header, duplicated Connection / Upgrade; header names per header in lower / Capitalised / UPPER case with h11_pass_raw_headers on and off) x decisions x closing orders (incl. the application's close held up by a peer that does not read while the client's close frame arrives / the connection is reset) x carrier x worker, and the upgrade as the k-th request of its connection below / at keep_alive_max_requests (1, 2, 3) incl. wsproto's own client as oracle, and accept / denial response with headers in every container form x carrier x worker; distinct = distinct (layer, carrier, worker, header-state vector, decision classes, closing order); non-trivial = handshake invalid, or a decision other than a bare accept, or a closing order other than abrupt",
     "trusted": ["wsproto client handshake (WSConnection CLIENT) as oracle for an acceptable 101", "h11 / h2 client parsers"],
     "partial": ["duplicated handshake headers whose occurrences disagree and an HTTP/2 `:protocol` other than `websocket` are treated as unspecified by the monitor (the theorems state what the code does: last occurrence wins; `:protocol` is not looked at)"],
     "assumptions": ["requests are syntactically valid HTTP (h11 / h2 accept them); header names reach the stream lower-cased on HTTP/2, lower-cased or (h11_pass_raw_headers) as the client wrote them on HTTP/1"],
@@ -249,7 +249,16 @@ def gen_decisions(rng: random.Random) -> List[list]:
 
 CLOSINGS = [["client_first", 1000], ["client_first", 1001], ["client_first", 3000], ["client_first", None], ["app_first", None], ["app_first", 4001],
             ["simultaneous", 1000, 3001], ["abrupt"], ["client_close_twice", 1000], ["bad_frame"],
-            ["client_first_gone", 1000], ["client_first_gone", 3000], ["client_first_gone", None]]
+            ["client_first_gone", 1000], ["client_first_gone", 3000], ["client_first_gone", None],
+            ["app_close_overlap", None, 3001, 0], ["app_close_overlap", 4001, 1000, 0], ["app_close_overlap", 1000, None, 1], ["app_close_overlap", None, 4000, 1],
+            ["app_close_lost", None, 0], ["app_close_lost", 4001, 1]]
+# app_close_overlap [application's code, client's code, p]: the two closing sequences overlap - the application's websocket.close is
+# suspended in its p-th awaited send (0: the close frame, 1: the end of the data; the write does not complete - transport
+# back-pressure, HTTP/2 flow control) while the reader task handles the client's own close frame and the protocol, told
+# StreamClosed by it, closes the stream; then the write completes.  Both close frames were sent: a completed closing handshake
+# that the application started (1000; the client's code is tolerated as for `simultaneous`), never "connection lost".
+# app_close_lost [application's code, p]: the connection is lost while that send is suspended: its own close and a lost
+# connection both describe it (1000 or 1006).
 # client_first_gone: the client sends its close frame and vanishes; the echo cannot be written, the failed write closes the
 # connection from inside the await of the echo (StreamClosed is handled re-entrantly).  Still a client-initiated close.
 # bad_frame: an unmasked frame with a reserved opcode: wsproto yields CloseConnection(1002) *without* changing its state
@@ -345,6 +354,10 @@ def expected_code(closing: list) -> Optional[List[int]]:
         return [1000, closing[2]]
     if k == "abrupt":
         return [1006]
+    if k == "app_close_overlap":
+        return [1000, closing[2] if closing[2] is not None else 1005]
+    if k == "app_close_lost":
+        return [1000, 1006]
     return None
 
 
@@ -380,6 +393,12 @@ def direct_ops(case: dict, live: bool = True) -> List[dict]:
     elif k == "simultaneous":
         ops.append({"send": dec_msgs(["close", cl[1]])[0]})
         ops.append({"in": "data", "data": close_frame(cl[2], 3)})
+    elif k == "app_close_overlap":
+        # the reader handles the client's close frame, and the protocol's StreamClosed that follows from it, inside the
+        # application's suspended send (H11Protocol / H2Protocol deliver StreamClosed to the stream synchronously)
+        ops.append({"send": dec_msgs(["close", cl[1]])[0], "during": [{"in": "data", "data": close_frame(cl[2], 3)}, {"in": "streamClosed"}], "at": cl[3]})
+    elif k == "app_close_lost":
+        ops.append({"send": dec_msgs(["close", cl[1]])[0], "during": [{"in": "streamClosed"}], "at": cl[2]})
     ops.append({"in": "streamClosed"})
     ops.append({"in": "streamClosed"})
     return ops
@@ -403,7 +422,8 @@ def run_direct(ctx: Ctx, cases: List[dict]) -> None:
     reqs = []
     for case, (init, ops, lib) in zip(cases, prepared):
         r = S.ws_model_req(init, ops, lib, {})
-        r["cmd"] = "c11.ws"
+        # (sessions with a send suspended while the reader runs: the close branch statement by statement, HC/Stream/WsOverlap.lean)
+        r["cmd"] = "c11.wsx" if any("during" in op for op in ops) else "c11.ws"
         reqs.append(r)
         reqs.append({"cmd": "c11.token", "key": last(case["headers"], "sec-websocket-key") or ""})
         reqs.append({"cmd": "c11.valid", "version": case["version"], "headers": case["headers"]})
@@ -571,6 +591,15 @@ def e2e_wsrun(case: dict) -> dict:
     elif cl[0] == "simultaneous":
         app += [["send", dec_msgs(["close", cl[1]])[0]], ["recv_until_disconnect"]]
         client = [["close", cl[2]], ["flush"], ["sleep", 0.1], ["eof"]]
+    elif cl[0] == "app_close_overlap":
+        # the peer stops taking what the server writes, then says "go": the application's websocket.close is suspended in the
+        # transport write (drain() / send_all(); on HTTP/2 behind the connection's send task) while the client's own close frame
+        # is read and handled; then the peer reads again
+        app += [["recv"], ["send", dec_msgs(["close", cl[1]])[0]], ["recv_until_disconnect"]]
+        client = [["stall"], ["msg", "text", ["go"]], ["flush"], ["sleep", 0.1], ["close", cl[2]], ["flush"], ["sleep", 0.1], ["unstall"], ["sleep", 0.1], ["eof"]]
+    elif cl[0] == "app_close_lost":
+        app += [["recv"], ["send", dec_msgs(["close", cl[1]])[0]], ["recv_until_disconnect"]]
+        client = [["stall"], ["msg", "text", ["go"]], ["flush"], ["sleep", 0.1], ["reset"]]
     elif cl[0] == "abrupt":
         app.append(["recv_until_disconnect"])
         client = [["sleep", 0.1], [cl[1] if len(cl) > 1 else "eof"]]
@@ -892,6 +921,8 @@ def run(ctx: Ctx) -> None:
             continue
         for worker in ("asyncio", "trio"):
             for cl in [c for c in CLOSINGS if c[0] not in ("client_close_twice", "bad_frame")] + [["abrupt", "reset"]]:
+                if cl[0] in ("app_close_overlap", "app_close_lost") and cl[-1] != 0:
+                    continue        # (which of the branch's sends is suspended is the transport's business end to end)
                 ecases.append({"layer": "e2e", **h, "worker": worker, "decisions": [["accept", None, []]], "closing": cl})
     # the upgrade as the k-th request of its connection, below / at the per-connection request maximum (the server's own
     # `connection: close` belongs on final responses; the 101 of an accept stays the faithful rendering of the accept)
